@@ -2857,8 +2857,16 @@ impl<T: Storage> Raft<T> {
     /// Regenerates and stores the election timeout.
     pub fn reset_randomized_election_timeout(&mut self) {
         let prev_timeout = self.randomized_election_timeout;
+        #[cfg(not(tikv_raft_rs_verif))]
         let timeout =
             rand::thread_rng().gen_range(self.min_election_timeout..self.max_election_timeout);
+        #[cfg(tikv_raft_rs_verif)]
+        let timeout = crate::verif::election_timeout(
+            self.id,
+            self.term,
+            self.min_election_timeout,
+            self.max_election_timeout,
+        );
         debug!(
             self.logger,
             "reset election timeout {prev_timeout} -> {timeout} at {election_elapsed}",
